@@ -67,6 +67,53 @@ def chain_arms(head: ast.If):
     return arms
 
 
+def full_arms(f: FuncInfo, head: ast.If):
+    """The arms of the recogniser that starts at `head`, guard clauses included:
+
+        if line.startswith("event:"): …; continue          if line.startswith("event:"): …
+        if not line.startswith("data:"): continue     ≡    elif line.startswith("data:"): REST
+        REST
+
+    Each arm whose body ends in `continue`/`return` makes what follows it the rest of the chain; a negated prefix test
+    that only skips the line makes what follows it the arm of that prefix."""
+    arms = chain_arms(head)
+    block = None
+    for n in [f.node] + list(walk_local(f.node)):
+        for field in ("body", "orelse", "finalbody"):
+            v = getattr(n, field, None)
+            if isinstance(v, list) and head in v:
+                block = v
+        for h in getattr(n, "handlers", []) or []:
+            if head in h.body:
+                block = h.body
+    if block is None:
+        return arms
+
+    def leaves(stmts):
+        return bool(stmts) and isinstance(stmts[-1], (ast.Continue, ast.Return))
+
+    if not all(leaves(a.body) for a in arms) or (arms[-1].orelse and not leaves(arms[-1].orelse)):
+        return arms
+    rest = block[block.index(head) + 1:]
+    out = list(arms)
+    i = 0
+    while i < len(rest):
+        s_ = rest[i]
+        if not isinstance(s_, ast.If):
+            break
+        t = s_.test
+        if isinstance(t, ast.UnaryOp) and isinstance(t.op, ast.Not) and not s_.orelse and len(s_.body) == 1 and isinstance(s_.body[0], (ast.Continue, ast.Return)):
+            arm = ast.If(test=t.operand, body=rest[i + 1:] or [ast.Pass()], orelse=[])
+            out.append(ast.copy_location(arm, s_))
+            break
+        sub = chain_arms(s_)
+        out.extend(sub)
+        if not all(leaves(a.body) for a in sub) or (sub[-1].orelse and not leaves(sub[-1].orelse)):
+            break
+        i += 1
+    return out
+
+
 def _fold_str(node: ast.AST, env: Dict[str, str]):
     """Constant folding of the str operations the recognisers use (slices, strip, startswith) over `env`."""
     if isinstance(node, ast.Constant) and isinstance(node.value, (str, int)):
@@ -215,7 +262,7 @@ def grammar_rule(P: Project, R: Report, module: str, rule: str, label: str) -> i
     n = 0
     for f, head in recs:
         R.fn(f.fq)
-        arms = chain_arms(head)
+        arms = full_arms(f, head)
         where = f"{f.module.rel}:{head.lineno}"
         gots = [recognise(arms, line) for _c, line, _w in LINE_CLASSES]
         if all(g[0] == "?" for g in gots):
